@@ -178,3 +178,159 @@ Proof.
   cbn [mstep]; cbv zeta. rewrite D, C, Nat.ltb_irrefl.
   destruct (Nat.ltb_spec (length vs - 1) (length vs)); [|lia]. repeat split.
 Qed.
+
+(* ---------- fresh VALUE iterators ---------- *)
+Definition tv (l : list (Z * list Z)) : nat := fold_right (fun e a => (length (snd e) + a)%nat) 0%nat l.
+Lemma filter_length_le (f : Z -> bool) l : (length (filter f l) <= length l)%nat.
+Proof. induction l as [|x t IH]; simpl; auto. destruct (f x); simpl; lia. Qed.
+Lemma filter_length_eq (f : Z -> bool) l : length (filter f l) = length l -> filter f l = l.
+Proof.
+  induction l as [|x t IH]; simpl; auto. destruct (f x); simpl; intros H.
+  - f_equal. apply IH. lia.
+  - pose proof (filter_length_le f t). lia.
+Qed.
+Lemma tv_map_le (f : Z -> bool) l : (tv (map (fun e => (fst e, filter f (snd e))) l) <= tv l)%nat.
+Proof. induction l as [|(k, vs) t IH]; simpl; auto. pose proof (filter_length_le f vs). lia. Qed.
+Lemma tv_map_eq (f : Z -> bool) l :
+  tv (map (fun e => (fst e, filter f (snd e))) l) = tv l -> map (fun e => (fst e, filter f (snd e))) l = l.
+Proof.
+  induction l as [|(k, vs) t IH]; simpl; auto. intros H.
+  pose proof (filter_length_le f vs). pose proof (tv_map_le f t).
+  f_equal; [f_equal; apply filter_length_eq; lia|apply IH; lia].
+Qed.
+
+(* nothing at all changes unless one of the two versions moves *)
+Lemma mm_contents_change_bumps s o :
+  kver (fst (mstep s o)) = kver s -> vver (fst (mstep s o)) = vver s -> ents (fst (mstep s o)) = ents s.
+Proof.
+  destruct o; munf; mdm; cbn [fst kver vver ents mset mupd]; intros E1 E2; try reflexivity; try lia.
+  apply tv_map_eq. unfold total_values in E2. fold (tv (ents s)) in E2.
+  match type of E2 with context [fold_right _ _ (map ?F (ents s))] => fold (tv (map F (ents s))) in E2 end.
+  pose proof (tv_map_le (fun v : Z => negb (v mod m =? 0)) (ents s)). lia.
+Qed.
+
+Lemma lookup_repl_same k vs : forall l, lookup k l <> None -> lookup k (repl k vs l) = Some vs.
+Proof.
+  induction l as [|(x, xs) t IH]; simpl; [congruence|]. destruct (Z.eqb_spec k x); subst; simpl.
+  - rewrite Z.eqb_refl. reflexivity.
+  - intros H. destruct (Z.eqb_spec k x); [congruence|]. apply IH, H.
+Qed.
+Lemma lookup_insk_same k vs : forall l, lookup k l = None -> lookup k (insk k vs l) = Some vs.
+Proof.
+  induction l as [|(x, xs) t IH]; simpl; intros H.
+  - rewrite Z.eqb_refl. reflexivity.
+  - destruct (Z.eqb_spec k x); [discriminate|]. destruct (k <? x); simpl.
+    + rewrite Z.eqb_refl. reflexivity.
+    + destruct (Z.eqb_spec k x); [congruence|]. apply IH, H.
+Qed.
+
+(* position accuracy of a value iterator (independent of freshness) *)
+Definition vacc (s : mstate) (h : mhandle) : Prop :=
+  forall k n, kp h = KElem k -> vp h = VAt n -> exists vs, lookup k (ents s) = Some vs /\ (n < length vs)%nat.
+
+(* snapshots never exceed the versions *)
+Definition msnap (s : mstate) : Prop :=
+  forall i, (kcid (mhs s i) = Some 0%nat -> (ksnap (mhs s i) <= kver s)%nat) /\
+            (vcid (mhs s i) = Some 0%nat -> (vsnap (mhs s i) <= vver s)%nat).
+Lemma msnap_step s o : msnap s -> msnap (fst (mstep s o)).
+Proof.
+  intros I i. pose proof (mm_step_monotone s o) as (Mk & Mv). destruct (I i) as (Ai & Bi).
+  destruct o; munf; mdm; cbn [fst mhs mset mupd kver vver] in *;
+    try (split; intros; [apply Ai in H|apply Bi in H]; lia);
+    destruct (Nat.eqb i _) eqn:Ei; try (split; intros; [apply Ai in H|apply Bi in H]; lia);
+    cbn [kcid ksnap vcid vsnap vfresh kfresh mnull knull kver vver mupd]; split; intros H; try discriminate H; try lia;
+    match goal with |- context [ksnap (mhs s ?j)] => destruct (I j) as (Aj & Bj); first [apply Aj in H; lia | apply Bj in H; lia]
+                  | |- context [vsnap (mhs s ?j)] => destruct (I j) as (Aj & Bj); first [apply Bj in H; lia | apply Aj in H; lia] end.
+Qed.
+
+Definition minv2 (s : mstate) : Prop :=
+  forall i, kcid (mhs s i) = Some 0%nat -> vcid (mhs s i) = Some 0%nat ->
+    ksnap (mhs s i) = kver s -> vsnap (mhs s i) = vver s -> vacc s (mhs s i).
+
+Lemma kderef_elem s h k vs : kderef s h = Some (Some (k, vs)) -> kcid h = Some 0%nat -> kp h = KElem k /\ lookup k (ents s) = Some vs.
+Proof.
+  unfold kderef. intros H C. rewrite C in H. destruct (kself s h); [|discriminate].
+  destruct (kp h); try discriminate. destruct (lookup k0 (ents s)) eqn:E; inversion H; subst. auto.
+Qed.
+
+Lemma minv2_step s o : msnap s -> minv2 s -> minv2 (fst (mstep s o)).
+Proof.
+  intros SN I i. set (s' := fst (mstep s o)).
+  pose proof (mm_step_monotone s o) as (Mk & Mv). pose proof (mm_contents_change_bumps s o) as C. fold s' in Mk, Mv, C.
+  assert (Hcase : mhs s' i = mhs s i \/ vacc s' (mhs s' i) \/
+          (kcid (mhs s' i) <> Some 0%nat \/ vcid (mhs s' i) <> Some 0%nat)).
+  { subst s'. destruct o; cbn [mstep]; unfold remove_value; cbv zeta; mdm; cbn [fst mhs mset mupd kver vver ents];
+      try (left; reflexivity);
+      destruct (Nat.eqb i _) eqn:Ei; try (left; reflexivity);
+      try (right; right; cbn [kcid vcid mnull knull kfresh]; first [left; discriminate | right; discriminate]).
+    all: try match goal with H : kderef _ ?h = Some (Some (_, _)) |- _ =>
+               destruct (kcid h) as [[|c]|] eqn:KC;
+               [destruct (kderef_elem _ _ _ _ H KC) as (HP & HL)
+               | right; right; left; cbn [kcid vfresh]; rewrite ?KC; discriminate ..] end.
+    all: right; left.
+    all: intros k0 n0 Hk Hn; cbn [kp vp vfresh kfresh ents mset mupd] in *; try (rewrite HP in Hk); inversion Hk; inversion Hn; subst.
+    all: try (eexists; split; [eassumption|]; first [apply Nat.ltb_lt; assumption | lia]).
+    all: try (eexists; split; [apply lookup_repl_same; congruence|]; rewrite app_length; simpl; lia).
+    all: try (eexists; split; [apply lookup_insk_same; assumption|]; simpl; lia). }
+  intros Hk Hv E1 E2.
+  destruct Hcase as [E|[A|[F|F]]]; try congruence; [|exact A].
+  rewrite E in *. destruct (SN i) as (S1 & S2). specialize (S1 Hk). specialize (S2 Hv).
+  assert (K1 : kver s' = kver s) by lia. assert (K2 : vver s' = vver s) by lia.
+  intros k n P1 P2. destruct (I i Hk Hv ltac:(lia) ltac:(lia) k n P1 P2) as (vs & L & N). exists vs. rewrite (C K1 K2). auto.
+Qed.
+
+Lemma msnap_init : msnap minit.
+Proof. intros i; split; intros H; discriminate. Qed.
+Lemma minv2_init : minv2 minit.
+Proof. intros i H; discriminate. Qed.
+Lemma minv2_run ops : forall s, msnap s -> minv2 s -> msnap (mrun s ops) /\ minv2 (mrun s ops).
+Proof.
+  induction ops as [|o t IH]; intros s A B; simpl; auto. apply IH; [apply msnap_step|apply minv2_step]; auto.
+Qed.
+
+(* for every history from the empty multimap: a value (pair) iterator of this multimap whose two snapshots are current
+   and which is positioned at a value still has its index inside the key's value array; reading it returns that value
+   and ++ is accepted *)
+Lemma mm_fresh_value_iterator_accepted ops i k n :
+  let s := mrun minit ops in
+  kcid (mhs s i) = Some 0%nat -> vcid (mhs s i) = Some 0%nat ->
+  ksnap (mhs s i) = kver s -> vsnap (mhs s i) = vver s -> kp (mhs s i) = KElem k -> vp (mhs s i) = VAt n ->
+  exists vs, lookup k (ents s) = Some vs /\ (n < length vs)%nat /\
+             mstep s (MVDeref i) = (s, MAcc (Some (nth n vs 0))) /\ snd (mstep s (MVInc i)) = MAcc None.
+Proof.
+  intros s Hk Hv E1 E2 P1 P2. destruct (minv2_run ops minit msnap_init minv2_init) as (_ & I). fold s in I.
+  destruct (I i Hk Hv E1 E2 k n P1 P2) as (vs & L & N). exists vs. repeat split; auto.
+  - munf. unfold vself, kself. rewrite Hv, E2, Nat.eqb_refl, P2, Hk, E1, Nat.eqb_refl, P1, L. reflexivity.
+  - munf. unfold vself, kself. rewrite Hv, E2, Nat.eqb_refl, P2, Hk, E1, Nat.eqb_refl, P1, L. reflexivity.
+Qed.
+
+(* ---------- the exact accepted-set of the code ---------- *)
+(* for every history: reading a value iterator of this multimap positioned at a value is accepted IF AND ONLY IF both
+   cells are still at the values it recorded (no key-version-bumping and no valueVersion-bumping entry point ran) *)
+Lemma mm_value_iterator_accepted_iff_versions_unchanged ops i k n :
+  let s := mrun minit ops in
+  kcid (mhs s i) = Some 0%nat -> vcid (mhs s i) = Some 0%nat -> kp (mhs s i) = KElem k -> vp (mhs s i) = VAt n ->
+  ((exists v, mstep s (MVDeref i) = (s, MAcc (Some v))) <-> (ksnap (mhs s i) = kver s /\ vsnap (mhs s i) = vver s)) /\
+  (mstep s (MVDeref i) = (s, MRej) <-> ~ (ksnap (mhs s i) = kver s /\ vsnap (mhs s i) = vver s)).
+Proof.
+  intros s Hk Hv P1 P2.
+  assert (F : ksnap (mhs s i) = kver s /\ vsnap (mhs s i) = vver s -> exists v, mstep s (MVDeref i) = (s, MAcc (Some v))).
+  { intros (E1 & E2). destruct (mm_fresh_value_iterator_accepted ops i k n Hk Hv E1 E2 P1 P2) as (vs & _ & _ & D & _). eauto. }
+  assert (S : ~ (ksnap (mhs s i) = kver s /\ vsnap (mhs s i) = vver s) -> mstep s (MVDeref i) = (s, MRej)).
+  { intros N. apply (mm_stale_value_iterator_rejected s i (MVDeref i) n); [|exact P2|constructor].
+    destruct (Nat.eq_dec (vsnap (mhs s i)) (vver s)) as [e|e].
+    - right. split; [exact Hk|]. intros E. apply N. split; assumption.
+    - left. split; assumption. }
+  split; split; auto.
+  - intros (v & E). destruct (Nat.eq_dec (ksnap (mhs s i)) (kver s)), (Nat.eq_dec (vsnap (mhs s i)) (vver s)); auto;
+      exfalso; rewrite S in E by tauto; discriminate.
+  - intros E N. destruct (F N) as (v & E2). congruence.
+Qed.
+
+(* over-invalidation witness: RemoveValues on a key that has no values changes nothing but bumps valueVersion *)
+Example mm_noop_remove_values_invalidates :
+  let pre := [MInsertKey 1 0; MAdd 2 20 10; MFind 1 1; MFind 2 2; MMakeIt 2 0 11] in
+  ents (mrun minit pre) = ents (mrun minit (pre ++ [MRemoveValues 1])) /\
+  snd (mstep (mrun minit pre) (MVDeref 11)) = MAcc (Some 20) /\
+  snd (mstep (mrun minit (pre ++ [MRemoveValues 1])) (MVDeref 11)) = MRej.
+Proof. vm_compute. repeat split. Qed.
